@@ -2,8 +2,8 @@
  * exec32.c - the header-operation executor for an ILP32 data model (int, long, pointers and size_t are 32 bit).
  * No 32-bit C library exists in the sandbox, so this is a freestanding program (gcc -m32 -ffreestanding -nostdlib -static)
  * with its own few string functions and raw system calls; the library sources and the generated bindings are compiled
- * with it unchanged.  It understands the X command of exec.c (placement is ignored: one static arena), the Y command
- * (raw descriptors) and the BO command (byte-order helpers) and answers in the same format.  No expected values here either.
+ * with it unchanged.  It understands the X command of exec.c (placement is ignored: one static arena) and, through exec_ext.c compiled
+ * unchanged against a small runtime of its own, the Y, BO, CB, VS and SA commands (descriptors, byte-order helpers, CAN builders, VSS codec) and answers in the same format.  No expected values here either.
  */
 #include <stdint.h>
 #include <stddef.h>
@@ -28,7 +28,7 @@ static void ohex(const uint8_t* p, size_t n) { static const char* d = "012345678
 static void o64(uint64_t v) { uint8_t b[8]; for (int i = 7; i >= 0; i--) { b[i] = (uint8_t)v; v >>= 8; } ohex(b, 8); }
 static void odec(long v) { char t[16]; int k = 0; unsigned long u = v < 0 ? (unsigned long)(-v) : (unsigned long)v; if (v < 0) oc('-'); do { t[k++] = (char)('0' + u % 10); u /= 10; } while (u); while (k) oc(t[--k]); }
 static int hexv(int c) { return c <= '9' ? c - '0' : (c | 32) - 'a' + 10; }
-static size_t unhex(const char* s, uint8_t* out, size_t max) { size_t n = 0; if (s[0] == '-') return 0; while (s[0] && s[1] && n < max) { out[n++] = (uint8_t)(hexv(s[0]) * 16 + hexv(s[1])); s += 2; } return n; }
+size_t unhex(const char* s, uint8_t* out, size_t max) { size_t n = 0; if (s[0] == '-') return 0; while (s[0] && s[1] && n < max) { out[n++] = (uint8_t)(hexv(s[0]) * 16 + hexv(s[1])); s += 2; } return n; }
 static long atol_(const char* s) { long v = 0; int neg = 0; if (*s == '-') { neg = 1; s++; } while (*s >= '0' && *s <= '9') v = v * 10 + (*s++ - '0'); return neg ? -v : v; }
 /* identifiers above 2^31 arrive as decimal text: keep all 32 bits */
 static unsigned long atoul_(const char* s) { unsigned long v = 0; while (*s >= '0' && *s <= '9') v = v * 10 + (unsigned long)(*s++ - '0'); return v; }
@@ -68,41 +68,74 @@ static void cmd_x(char** tok)
     else nobind = 1;
     os(nobind ? "R nobind " : "R ok "); o64(ret); oc(' '); odec(rc); oc(' '); o64(out); oc(' '); ohex(a, alen); os(" 0\n");
 }
-static void cmd_y(char** tok)
-{   /* Y op q off w val16 base place poff arenahex */
-    Avtp_FieldDescriptor_t tab[3]; uint8_t vb[8];
-    tab[0].quadlet = 0; tab[0].offset = 0; tab[0].bits = 8;
-    tab[1].quadlet = (uint8_t)atol_(tok[2]); tab[1].offset = (uint8_t)atol_(tok[3]); tab[1].bits = (uint8_t)atol_(tok[4]);
-    tab[2].quadlet = 1; tab[2].offset = 4; tab[2].bits = 12;
-    uint8_t vb2[16]; memset(vb2, 0, 16); unhex(tok[5], vb2, 16); memcpy(vb, vb2, 8); uint64_t val = be64(vb), val2 = be64(vb2 + 8); long base = atol_(tok[6]);
-    uint8_t* a = arena + 32; size_t alen = unhex(tok[9], a, 8192); uint64_t ret = 0, r0 = 0, r1 = 0; uint8_t* hdr = a + base;
-    if (!strcmp(tok[1], "gsg")) {
-        r0 = Avtp_GetField(tab, 3, hdr, 1); Avtp_SetField(tab, 3, hdr, 1, val); r1 = Avtp_GetField(tab, 3, hdr, 1);
-        Avtp_SetField(tab, 3, hdr, 1, val2); ret = Avtp_GetField(tab, 3, hdr, 1);
-        os("R ok "); o64(ret); os(" 0 "); o64(r1); oc(' '); ohex(a, alen); os(" 0 r0="); o64(r0); oc('\n'); return;
-    }
-    if (!strcmp(tok[1], "set")) Avtp_SetField(tab, 3, hdr, 1, val); else ret = Avtp_GetField(tab, 3, hdr, 1);
-    os("R ok "); o64(ret); os(" 0 0000000000000000 "); ohex(a, alen); os(" 0\n");
+
+/* ---- runtime of exec_ext.c (CAN builders, VSS codec, string arrays, raw descriptors, byte-order helpers) for this data model:
+ * no placement (static arenas with canaries on both sides), no fault recovery (a dying process is attributed by the driver) */
+#include <stdarg.h>
+#include "exec_ext.h"
+unsigned long long __udivmoddi4(unsigned long long n, unsigned long long d, unsigned long long* rem)
+{   /* 64-bit division for the formatted output (no libgcc for -m32 here) */
+    unsigned long long q = 0, r = 0;
+    for (int i = 63; i >= 0; i--) { r = (r << 1) | ((n >> i) & 1); if (r >= d) { r -= d; q |= 1ULL << i; } }
+    if (rem) *rem = r; return q;
 }
-#include "avtp/Byteorder.h"
-static void cmd_bo(char** tok)
-{   /* BO fn size xhex  ->  R ok val=<logical value> img=<memory image> (exec_ext.c) */
-    const char* fn = tok[1]; int size = (int)atol_(tok[2]);
-    uint8_t xb[8] = {0}, vb[8], img[8];
-    unhex(tok[3], xb, 8);
-    uint64_t x = 0; for (int i = 0; i < size; i++) x = (x << 8) | xb[i];
-    uint64_t r = 0; int ok = 1;
-#define DISPATCH(bits, T) \
-    if (!strcmp(fn, "CpuToBe")) { T y = Avtp_CpuToBe##bits((T)x); memcpy(img, &y, sizeof y); r = y; } \
-    else if (!strcmp(fn, "BeToCpu")) { T y = Avtp_BeToCpu##bits((T)x); memcpy(img, &y, sizeof y); r = y; } \
-    else if (!strcmp(fn, "CpuToLe")) { T y = Avtp_CpuToLe##bits((T)x); memcpy(img, &y, sizeof y); r = y; } \
-    else if (!strcmp(fn, "LeToCpu")) { T y = Avtp_LeToCpu##bits((T)x); memcpy(img, &y, sizeof y); r = y; } \
-    else if (!strcmp(fn, "Bswap")) { T y = Avtp_Bswap##bits((T)x); memcpy(img, &y, sizeof y); r = y; } \
-    else ok = 0;
-    if (size == 2) { DISPATCH(16, uint16_t) } else if (size == 4) { DISPATCH(32, uint32_t) } else if (size == 8) { DISPATCH(64, uint64_t) } else ok = 0;
-    if (!ok) { os("R nobind\n"); return; }
-    for (int i = size - 1; i >= 0; i--) { vb[i] = (uint8_t)r; r >>= 8; }
-    os("R ok val="); ohex(vb, (size_t)size); os(" img="); ohex(img, (size_t)size); oc('\n');
+unsigned long long __udivdi3(unsigned long long n, unsigned long long d) { return __udivmoddi4(n, d, 0); }
+unsigned long long __umoddi3(unsigned long long n, unsigned long long d) { unsigned long long r; __udivmoddi4(n, d, &r); return r; }
+char *strchr(const char *s, int c) { for (; *s; s++) if (*s == (char)c) return (char*)s; return c ? 0 : (char*)s; }
+char *strcpy(char *d, const char *s) { char* r = d; while ((*d++ = *s++)) { } return r; }
+int atoi(const char* s) { return (int)atol_(s); }
+long atol(const char* s) { return atol_(s); }
+int putchar(int c) { oc((char)c); return c; }
+static void ou64(unsigned long long u, int width, char pad, int hex)
+{
+    char t[24]; int k = 0; static const char* d = "0123456789abcdef";
+    do { if (hex) { t[k++] = d[u & 15]; u >>= 4; } else { unsigned long long r; u = __udivmoddi4(u, 10, &r); t[k++] = (char)('0' + r); } } while (u);
+    while (k < width) t[k++] = pad;
+    while (k) oc(t[--k]);
+}
+int printf(const char* f, ...)
+{
+    va_list ap; va_start(ap, f);
+    for (; *f; f++) {
+        if (*f != '%') { oc(*f); continue; }
+        f++; char pad = ' '; int width = 0, lng = 0;
+        if (*f == '0') { pad = '0'; f++; }
+        while (*f >= '0' && *f <= '9') width = width * 10 + (*f++ - '0');
+        while (*f == 'l' || *f == 'z') { lng += (*f == 'l'); f++; }
+        if (*f == 's') os(va_arg(ap, const char*));
+        else if (*f == 'c') oc((char)va_arg(ap, int));
+        else if (*f == 'd') { long long v = lng >= 2 ? va_arg(ap, long long) : (long long)va_arg(ap, long); if (v < 0) { oc('-'); v = -v; } ou64((unsigned long long)v, width, pad, 0); }
+        else if (*f == 'u' || *f == 'x') { unsigned long long v = lng >= 2 ? va_arg(ap, unsigned long long) : (unsigned long long)va_arg(ap, unsigned long); ou64(v, width, pad, *f == 'x'); }
+        else if (*f == '%') oc('%');
+    }
+    va_end(ap); return 0;
+}
+int hexval(int c) { return hexv(c); }
+void puthex(const uint8_t* p, size_t n) { ohex(p, n); }
+#define CAN32 64
+static uint8_t place32[CAN32 + EXT_MAXARENA + CAN32]; static size_t place_n;
+static void canfill(uint8_t* p) { for (int i = 0; i < CAN32; i++) p[i] = (uint8_t)(0xC3 ^ i); }
+static int canbad(const uint8_t* p) { for (int i = 0; i < CAN32; i++) if (p[i] != (uint8_t)(0xC3 ^ i)) return 1; return 0; }
+uint8_t* ext_place(char place, long off, const uint8_t* bytes, size_t n)
+{   (void)place; (void)off; place_n = n; canfill(place32); memcpy(place32 + CAN32, bytes, n); canfill(place32 + CAN32 + n); return place32 + CAN32; }
+static uint8_t src32[EXT_MAXARENA + 16];
+uint8_t* ext_source(const uint8_t* bytes, size_t n) { uint8_t* a = src32 + 8; memcpy(a, bytes, n); return a; }       /* 8-aligned: good for every element type */
+uint8_t* ext_source_typed(const uint8_t* bytes, size_t n, size_t elem) { (void)elem; return ext_source(bytes, n); }
+void ext_dest_hint(uint8_t* p) { (void)p; }
+#define NDEST32 9
+#define DSZ32 (66 * 1024)
+static uint8_t dest32[NDEST32][DSZ32 + CAN32]; static size_t dest_cap[NDEST32];
+uint8_t* ext_dest(int k, size_t cap, uint8_t fill)
+{   if (k < 0 || k >= NDEST32 || cap > DSZ32) return 0; memset(dest32[k], fill, DSZ32); canfill(dest32[k] + DSZ32); dest_cap[k] = cap; return dest32[k] + DSZ32 - cap; }
+int ext_dest_dirty(int k, size_t cap, uint8_t fill)
+{   for (size_t i = 0; i < DSZ32 - cap; i++) if (dest32[k][i] != fill) return 1; return canbad(dest32[k] + DSZ32); }
+int ext_call(void (*fn)(void*), void* ctx, char* status, size_t slen, uint8_t* arena)
+{   (void)slen; (void)arena; strcpy(status, "ok"); errno = 0; fn(ctx); return 1; }
+void ext_result(const char* status, uint64_t ret, long rc, uint64_t out, uint8_t* arena, size_t alen)
+{
+    os("R "); os(status); oc(' '); o64(ret); oc(' '); odec(rc); oc(' '); o64(out); oc(' '); ohex(arena, alen);
+    int bad = (arena == place32 + CAN32) && (canbad(place32) || canbad(place32 + CAN32 + place_n));
+    os(bad ? " 1" : " 0");
 }
 static char inbuf[1 << 22];
 void _start(void)
@@ -112,11 +145,10 @@ void _start(void)
     inbuf[n] = 0;
     char* p = inbuf;
     while (*p) {
-        char* tok[16]; int nt = 0; char* e = p; while (*e && *e != '\n') e++; char save = *e; *e = 0;
-        for (char* q = p; *q && nt < 16; ) { while (*q == ' ') q++; if (!*q) break; tok[nt++] = q; while (*q && *q != ' ') q++; if (*q) *q++ = 0; }
+        static char* tok[640]; int nt = 0; char* e = p; while (*e && *e != '\n') e++; char save = *e; *e = 0;
+        for (char* q = p; *q && nt < 640; ) { while (*q == ' ') q++; if (!*q) break; tok[nt++] = q; while (*q && *q != ' ') q++; if (*q) *q++ = 0; }
         if (nt >= 11 && !strcmp(tok[0], "X")) cmd_x(tok);
-        else if (nt >= 10 && !strcmp(tok[0], "Y")) cmd_y(tok);
-        else if (nt >= 4 && !strcmp(tok[0], "BO")) cmd_bo(tok);
+        else if (nt && exec_ext(tok, nt)) { }
         else if (nt) os("E unknown\n");
         p = save ? e + 1 : e;
     }
